@@ -5,6 +5,7 @@ of text lines and *is* its own replay. The generator keeps a plain versioned-map
 history only to choose meaningful arguments (existing keys, neighbours, valid prune targets) — it
 is not an oracle.
 """
+import os
 import random
 
 KEYS = [b"a", b"b", b"c", b"ab", b"ac", b"abc", b"b\x00", b"b\xff", b"\x00", b"\xff",
@@ -57,6 +58,7 @@ class Profile:
         self.p_savecs = 0.0            # probability that a version is written through SaveChangeSet
         self.p_reopen_old = 0.0        # reopen positioned on an older version (reads only), then back to latest
         self.p_save_existing = 0.5     # after loading an old version: replay the same writes (idempotent save)
+        self.p_churn = 0.05            # probability of a version with many inserts, a hash query, then many removals
         for k, v in kw.items():
             if not hasattr(self, k):
                 raise KeyError(k)
@@ -84,6 +86,9 @@ class Hist:
             self.keys = list(dict.fromkeys(self.keys))
         else:
             self.keys = rng.sample(KEYS, min(n, len(KEYS)))
+        if rng.random() < float(os.environ.get("VERIF_P_EMPTYKEY", "0.12")):
+            # the empty key is a legal key (only nil is refused) and sorts first
+            self.keys.append(b"")
         self.cfg = {}
         self.emit("new %s" % hid)
         self.choose_cfg(first=True)
@@ -147,7 +152,7 @@ class Hist:
             return k + b"\x00"
         if x < 0.7:
             return k[:-1] if len(k) > 1 else k
-        if x < 0.8:
+        if x < 0.8 and k:
             return k[:-1] + bytes([(k[-1] + 1) % 256])
         if x < 0.85:
             return k + b"\xff"
@@ -163,8 +168,36 @@ class Hist:
         return self.probe_key()
 
     # ----- steps
+    def churn(self):
+        """one version that grows by many keys, is hashed while uncommitted, and then shrinks again:
+        rebalancing (single and double rotations) of nodes created in the same version, with memoised hashes"""
+        r = self.r
+        pool = list(self.keys) + [b"q%02d" % i for i in range(r.randint(6, 24))]
+        r.shuffle(pool)
+        for k in pool:
+            v = self.value()
+            self.emit("set %s %s" % (enc(k), enc(v)))
+            self.curlog.append(("set", k, v))
+            self.working[k] = v
+            self.dirty = True
+        for rounds in range(r.randint(1, 3)):
+            if self.hash_ok():
+                self.emit(r.choice(["whash", "whash", "hash", "proof " + enc(self.probe_key())]))
+            ks = sorted(self.working)
+            r.shuffle(ks)
+            for k in ks[:r.randint(1, max(1, len(ks) // 2))]:
+                self.emit("rm %s" % enc(k))
+                self.curlog.append(("rm", k))
+                del self.working[k]
+            if self.hash_ok() and r.random() < 0.5:
+                self.emit("whash")
+        self.read_ops(2)
+
     def write_ops(self):
         r, p = self.r, self.p
+        if r.random() < p.p_churn:
+            self.churn()
+            return
         if r.random() < p.p_noop_version:
             return
         for _ in range(r.randint(*p.ops_per_version)):
@@ -215,6 +248,9 @@ class Hist:
                 self.emit(op)
         if r.random() < p.iters:
             self.iter_ops("")
+        if p.proofs > 0 and r.random() < 0.3 and self.versions:
+            # versioned proofs while the working tree holds uncommitted changes
+            self.emit("vproof %s %d" % (enc(self.probe_key()), r.choice(sorted(self.versions)[-2:])))
 
     def one_read(self, op, prefix):
         r = self.r
@@ -373,6 +409,12 @@ class Hist:
             if r.random() < 0.3 and hi > 0:
                 self.emit("prune %d" % hi)   # deleting the latest version: rejected
             return
+        if r.random() < 0.15:
+            # an out-of-date request: everything up to n is gone already; it must change nothing
+            self.emit("prune %d" % r.randint(0, max(0, lo - 1)))
+            self.emit("avail")
+            self.emit("vexists %d" % max(0, lo - 1))
+            return
         # the tree must not be positioned on a version that is going away
         n = r.randint(lo, hi - 1)
         if self.base <= n and r.random() < 0.9:
@@ -492,8 +534,17 @@ class Hist:
             self.read_ops()
             if r.random() < p.p_rollback:
                 self.rollback()
+                self.read_ops(1)
                 self.write_ops()
                 self.read_ops(1)
+                if r.random() < 0.5:
+                    # discard again, without a commit in between
+                    self.rollback()
+                    self.read_ops(2)
+                    if r.random() < 0.5:
+                        self.emit("lhash")
+                        self.emit("whash")
+                    self.write_ops()
             self.save()
             self.imm_reads()
             self.after_commit()
